@@ -72,6 +72,8 @@ class Context:
 
     def expect_count(self, rule, what, found, minimum):
         if found < minimum:
+            if any(i.verdict == 'violation' and i.rule == f'{self.prop}.{rule}' for i in self.instances):
+                return   # the missing instances were reported as violations of this rule
             raise AnalysisError(f'rule={self.prop}.{rule} {what}: expected>={minimum} found={found} '
                                 f'(anchor moved or idiom no longer recognised)')
 
